@@ -94,3 +94,32 @@ Theorem tw_end_is_assembled k b t rest :
 Proof.
   intros H b0. unfold tw_end, tw_end_err_assembled. rewrite H. cbn [negb]. split; reflexivity.
 Qed.
+
+(* ---------- try_with_min_align_and_capacity ---------- *)
+Definition with_capacity_assembled (k : cfg) (A : acquirer) (b : bump) (cap : N)
+           (zero : bool) (lay : option layout) : bump * out :=
+  match chunks b with
+  | _ :: _ => (b, out_of (RBad BAD_NOT_FRESH))
+  | [] =>
+    if zero then (b, out_of RUnit)
+    else match lay with
+         | Some _ =>
+             let (a, reqs) := A b (ForCapacity cap) in
+             match a with
+             | AcqNone => (b, mkOut RErr [] [] [] [] reqs)
+             | AcqBad w => (b, mkOut (RBad w) [] [] [] [] reqs)
+             | AcqSome g data =>
+                 (push_chunk b (new_chunk k b g data), mkOut RUnit [] [] [] (limit_flags k b g) reqs)
+             end
+         | None => (b, out_of RErr)
+         end
+  end.
+
+Theorem with_capacity_is_assembled k A b cap :
+  with_capacity k A b cap =
+  with_capacity_assembled k A b cap (cap =? 0)
+    (if layout_ok cap (k_malign k) then Some (mkLayout cap (k_malign k)) else None).
+Proof.
+  unfold with_capacity, with_capacity_assembled. destruct (chunks b); [|reflexivity].
+  destruct (cap =? 0); [reflexivity|]. destruct (layout_ok cap (k_malign k)); reflexivity.
+Qed.
